@@ -100,7 +100,7 @@ def oracle(case):
 
 
 def check(rep, tier, seed):
-    n = 18 if tier == "quick" else 300
+    n = 18 if tier == "quick" else 1200
     cases = [gen_case(seed, i, ENGINES[i % 3], heavy_failures=(i % 2 == 0), real=[None, "plain", "tso", "fresh", "slow"][(i // 3) % 5]) for i in range(n)]
     cases += [sync_order_case(i) for i in range(3)]
     core.run_cases(cases)
